@@ -392,10 +392,16 @@ func c15BasicChooser(ipld.Link, linking.LinkContext) (ipld.NodePrototype, error)
 
 // c15Reference runs the traversal the writers are specified to perform - one ipld-prime walk per (root, selector)
 // with the documented meaning of the options - directly on a fresh logging store, without go-car.
-// budget < 0 = none. Each walk has its own budget and its own seen-links set.
-func c15Reference(ctx context.Context, d *c15Dag, cs C15Case, dags []c15DagSpec, once bool, budget int64, chooser traversal.LinkTargetNodePrototypeChooser) c15Ref {
+// budget < 0 = none. Each walk has its own seen-links set and, unless shared is set, its own budget; with shared the
+// walks of all the Dags draw on one budget (whether MaxTraversalLinks bounds each Dag or the whole car is not
+// documented and not part of the statement).
+func c15Reference(ctx context.Context, d *c15Dag, cs C15Case, dags []c15DagSpec, once bool, budget int64, shared bool, chooser traversal.LinkTargetNodePrototypeChooser) c15Ref {
 	st := &c15Store{d: d, missing: c15Missing(cs)}
 	ls := st.linkSystem()
+	var sharedBudget *traversal.Budget
+	if shared && budget >= 0 {
+		sharedBudget = &traversal.Budget{NodeBudget: math.MaxInt64, LinkBudget: budget}
+	}
 	for _, dg := range dags {
 		if dg.sel == "bytes" {
 			// hand model (the visit function that drains the bytes is go-car's): the root, then its links in order
@@ -425,7 +431,9 @@ func c15Reference(ctx context.Context, d *c15Dag, cs C15Case, dags []c15DagSpec,
 			LinkTargetNodePrototypeChooser: chooser,
 			LinkVisitOnlyOnce:              once,
 		}}
-		if budget >= 0 {
+		if sharedBudget != nil {
+			prog.Budget = sharedBudget
+		} else if budget >= 0 {
 			prog.Budget = &traversal.Budget{NodeBudget: math.MaxInt64, LinkBudget: budget}
 		}
 		if err := prog.WalkAdv(rootNode, sel, func(traversal.Progress, datamodel.Node, traversal.VisitReason) error { return nil }); err != nil {
@@ -444,14 +452,14 @@ type c15RefCache struct {
 
 var c15RefCaches sync.Map // worker scratch dir (one goroutine each) -> *c15RefCache
 
-func c15CachedReference(x *kit.Ctx, ctx context.Context, d *c15Dag, cs C15Case, dags []c15DagSpec, once bool, budget int64, typed bool) c15Ref {
+func c15CachedReference(x *kit.Ctx, ctx context.Context, d *c15Dag, cs C15Case, dags []c15DagSpec, once bool, budget int64, shared, typed bool) c15Ref {
 	v, _ := c15RefCaches.LoadOrStore(x.Dir, &c15RefCache{})
 	c := v.(*c15RefCache)
 	dagKey := fmt.Sprintf("%d%v|%s|%s|%d", cs.N, cs.Mult, cs.Codec, cs.leafKind(), cs.Missing)
 	if c.dag != dagKey {
 		c.dag, c.m = dagKey, map[string]c15Ref{}
 	}
-	k := fmt.Sprintf("%v|%v|%d|%v", dags, once, budget, typed)
+	k := fmt.Sprintf("%v|%v|%d|%v|%v", dags, once, budget, shared, typed)
 	if r, ok := c.m[k]; ok {
 		return r
 	}
@@ -459,7 +467,7 @@ func c15CachedReference(x *kit.Ctx, ctx context.Context, d *c15Dag, cs C15Case, 
 	if typed {
 		ch = dagpb.AddSupportToChooser(c15BasicChooser)
 	}
-	r := c15Reference(ctx, d, cs, dags, once, budget, ch)
+	r := c15Reference(ctx, d, cs, dags, once, budget, shared, ch)
 	c.m[k] = r
 	return r
 }
@@ -480,6 +488,41 @@ func c15Missing(cs C15Case) int {
 }
 
 func hasRepeats(log []int) bool { return len(firstVisit(log)) != len(log) }
+
+// sameLoadSet: two load logs name the same set of nodes. How often and in which order a writer reads the store is not
+// part of the statement (the order of the output is checked against the writer's own log).
+func sameLoadSet(a, b []int) bool {
+	as, bs := map[int]bool{}, map[int]bool{}
+	for _, i := range a {
+		as[i] = true
+	}
+	for _, i := range b {
+		bs[i] = true
+	}
+	if len(as) != len(bs) {
+		return false
+	}
+	for i := range as {
+		if !bs[i] {
+			return false
+		}
+	}
+	return true
+}
+
+// rootSet: the distinct roots, sorted.
+func rootSet(rs [][]byte) [][]byte {
+	seen := map[string]bool{}
+	var out [][]byte
+	for _, r := range rs {
+		if !seen[string(r)] {
+			seen[string(r)] = true
+			out = append(out, r)
+		}
+	}
+	sort.Slice(out, func(i, j int) bool { return bytes.Compare(out[i], out[j]) < 0 })
+	return out
+}
 
 func sortedKeys(m map[int]bool) []int {
 	var out []int
@@ -535,13 +578,17 @@ func runC15(c any, x *kit.Ctx) {
 	case cs.Writer == "v1-writecar":
 		// merkledag walk: modelled by reach() below, no load-order reference
 	case isV1:
-		refs = []c15Ref{c15CachedReference(x, ctx, d, cs, dags, cs.Once, budget, true)}
+		refs = []c15Ref{c15CachedReference(x, ctx, d, cs, dags, cs.Once, budget, false, true)}
+		if len(dags) > 1 && budget >= 0 {
+			// one budget per Dag or one for the whole car: either reading of MaxTraversalLinks is accepted
+			refs = append(refs, c15CachedReference(x, ctx, d, cs, dags, cs.Once, budget, true, true))
+		}
 	default:
 		if cs.Opts.AllowDup {
 			// the option is documented as ignored by the v2 root package and implemented as link-visit-once off: either is accepted
-			refs = append(refs, c15CachedReference(x, ctx, d, cs, dags, false, budget, cs.Chooser))
+			refs = append(refs, c15CachedReference(x, ctx, d, cs, dags, false, budget, false, cs.Chooser))
 		}
-		refs = append(refs, c15CachedReference(x, ctx, d, cs, dags, true, budget, cs.Chooser))
+		refs = append(refs, c15CachedReference(x, ctx, d, cs, dags, true, budget, false, cs.Chooser))
 	}
 	refFails, refSucceeds := false, false
 	for _, r := range refs {
@@ -598,10 +645,12 @@ func runC15(c any, x *kit.Ctx) {
 				return
 			}
 		}
-		x.Fail("c15:error-log:"+tag, "%s failed (%v) after loading %v; the reference traversal fails after loading %v", what, err, log, refs[0].log)
+		// which blocks were read before a legal refusal is not part of the statement
+		x.Outcome("beyond-statement:c15:error-log:" + tag)
 	}
 
-	// succeeded: the loads of a successful pass must be those of a reference traversal
+	// succeeded: a successful pass must have loaded the nodes a reference traversal loads (as a set: the number and the
+	// order of the reads of the store are the writer's business; a log that differs is recorded as an outcome)
 	succeeded := func(log []int, what string) {
 		if cs.Writer == "v1-writecar" {
 			return
@@ -615,6 +664,12 @@ func runC15(c any, x *kit.Ctx) {
 				return
 			}
 		}
+		for _, r := range refs {
+			if r.err == nil && sameLoadSet(r.log, log) {
+				x.Outcome("beyond-statement:c15:load-log:" + tag)
+				return
+			}
+		}
 		x.Fail("c15:traversal:"+tag, "%s loaded %v; the reference traversal loads %v", what, log, refs[len(refs)-1].log)
 	}
 
@@ -624,8 +679,11 @@ func runC15(c any, x *kit.Ctx) {
 			x.Fail("c15:payload-malformed:"+tag, "%s: payload not well-formed: %v", what, err)
 			return nil
 		}
-		if !sameRoots(pl.Header.Roots, wantRoots) {
+		// the distinct roots (the statement does not say whether a root shared by several Dags is listed once or per Dag, nor in which order)
+		if !sameRoots(rootSet(pl.Header.Roots), rootSet(wantRoots)) {
 			x.Fail("c15:roots:"+tag, "%s: roots %x want the traversal root(s) %x", what, pl.Header.Roots, wantRoots)
+		} else if !sameRoots(pl.Header.Roots, wantRoots) {
+			x.Outcome("beyond-statement:c15:roots-list:" + tag)
 		}
 		want := firstVisit(writeLog)
 		var got []int
@@ -756,8 +814,11 @@ func runC15(c any, x *kit.Ctx) {
 		var buf bytes.Buffer
 		n, err := carv2.TraverseV1(ctx, &ls, root, sel, &buf, opts...)
 		x.Transition(len(st.log))
-		if n != uint64(buf.Len()) {
+		// on failure the count has no documented meaning (unlike io.WriterTo's)
+		if err == nil && n != uint64(buf.Len()) {
 			x.Fail("c15:returned-count:"+tag, "TraverseV1 returned %d (err %v) but wrote %d bytes", n, err, buf.Len())
+		} else if n != uint64(buf.Len()) {
+			x.Outcome("beyond-statement:c15:returned-count-on-error:" + tag)
 		}
 		if err != nil {
 			failed(err, st.log, "TraverseV1")
@@ -865,19 +926,43 @@ func runC15(c any, x *kit.Ctx) {
 			if pl == nil {
 				return
 			}
+			// every call must report the section of its block truly and every section must be reported to every
+			// callback; calls are matched to sections by CID (each CID is written once, see c15:blocks), so that a
+			// callback which is told about a block more than once, or in another order, is an outcome only
+			secOf := map[string]int{}
+			for i, s := range pl.Sections {
+				if _, dup := secOf[string(s.Cid)]; !dup {
+					secOf[string(s.Cid)] = i
+				}
+			}
 			for k, l := range lists {
 				cbs := *l
-				if len(cbs) != len(pl.Sections) {
-					x.Fail("c15:callback-count:"+tag, "%s: callback #%d called %d times for %d sections", what, k, len(cbs), len(pl.Sections))
-					return
+				calls := make([]int, len(pl.Sections))
+				inOrder := len(cbs) == len(pl.Sections)
+				for i, c := range cbs {
+					j, ok := secOf[string(c.c)]
+					if !ok {
+						x.Fail("c15:callback-offsets:"+tag, "%s: callback #%d call %d reports block %x (offset %d size %d) which is not a section of the output", what, k, i, clip(c.c), c.off, c.size)
+						continue
+					}
+					s := pl.Sections[j]
+					calls[j]++
+					inOrder = inOrder && i == j
+					if c.off != s.Offset || c.size != s.Len {
+						x.Fail("c15:callback-offsets:"+tag, "%s: callback #%d call %d reports offset %d size %d; the section is at %d with size %d", what, k, i, c.off, c.size, s.Offset, s.Len)
+					}
+					if !bytes.Equal(c.data, s.Data) {
+						x.Fail("c15:callback-data:"+tag, "%s: callback #%d call %d carries data %x; the section holds %x", what, k, i, clip(c.data), clip(s.Data))
+					}
 				}
-				for i, s := range pl.Sections {
-					if !bytes.Equal(cbs[i].c, s.Cid) || cbs[i].off != s.Offset || cbs[i].size != s.Len {
-						x.Fail("c15:callback-offsets:"+tag, "%s: callback #%d call %d reports offset %d size %d; the section is at %d with size %d", what, k, i, cbs[i].off, cbs[i].size, s.Offset, s.Len)
+				for j, n := range calls {
+					if n == 0 {
+						x.Fail("c15:callback-count:"+tag, "%s: callback #%d called %d times for %d sections: never for section %d", what, k, len(cbs), len(pl.Sections), j)
+						break
 					}
-					if !bytes.Equal(cbs[i].data, s.Data) {
-						x.Fail("c15:callback-data:"+tag, "%s: callback #%d call %d carries data %x; the section holds %x", what, k, i, clip(cbs[i].data), clip(s.Data))
-					}
+				}
+				if !inOrder {
+					x.Outcome("beyond-statement:c15:callback-calls:" + tag)
 				}
 			}
 		}
@@ -899,8 +984,8 @@ func runC15(c any, x *kit.Ctx) {
 				for _, c := range prep.Header().Roots {
 					hr = append(hr, c.Bytes())
 				}
-				if !sameRoots(hr, wantRoots) || prep.Header().Version != 1 {
-					x.Fail("c15:prepare-header:"+tag, "Prepare().Header() = roots %x version %d; want roots %x version 1", hr, prep.Header().Version, wantRoots)
+				if !sameRoots(hr, pl.Header.Roots) || prep.Header().Version != 1 {
+					x.Fail("c15:prepare-header:"+tag, "Prepare().Header() = roots %x version %d; the header written has roots %x version 1", hr, prep.Header().Version, pl.Header.Roots)
 				}
 				var pc, sc [][]byte
 				for _, c := range prep.Cids() {
@@ -1291,8 +1376,8 @@ func init() {
 			"x writer {NewSelectiveWriter.WriteTo, TraverseV1, TraverseToFile (fresh / pre-existing longer file), root WriteCar, WriteCarWithWalker (walk func dropping links), SelectiveCar.Write, Prepare+Dump} " +
 			"x {link-visit-once on/off, link budget none/0/1/2, paddings, index codec/none, dag-pb prototype chooser, second root/Dag (every node incl. the same root, own selector), 0/1/2 block callbacks, one node absent from the store (SkipMe / IgnoreMissing)}; " +
 			"core matrix on all DAGs up to N nodes, added dimensions fully crossed up to N-1 nodes and as a reduced matrix on the N-node DAGs (N=5: only on the 2047 DAGs whose links all have the same multiplicity; see genC15); " +
-			"oracle: (1) independent log of the loads of the writing pass: output blocks = first-visit order of the log, each once, bytes intact; (2) the log equals that of a reference ipld-prime walk run without go-car (same selector, link-visit-once, budget), an error is legal only where the reference walk fails with the same loads, ErrSizeMismatch never; " +
-			"(3) hand model from the adjacency lists for explore-all / first-field / merkledag walks: set of output blocks = reachable set; (4) announced sizes = bytes written (DataSize, Prepare().Size(), returned counts also on error), Prepare().Header()/Cids() = header/sections written, Dump = Write, every callback's offset/size/data = the section's, index codec = requested, index = sections; " +
+			"oracle: (1) independent log of the loads of the writing pass: output blocks = first-visit order of the log, each once, bytes intact; (2) the set of nodes loaded equals that of a reference ipld-prime walk run without go-car (same selector, link-visit-once, budget; number and order of the store reads are recorded, not asserted), an error is legal only where a reference walk fails too (the loads before the refusal are recorded, not asserted), ErrSizeMismatch never; " +
+			"(3) hand model from the adjacency lists for explore-all / first-field / merkledag walks: set of output blocks = reachable set; (4) announced sizes = bytes written (DataSize, Prepare().Size(), WriteTo's count also on error, TraverseV1's count on success), header roots = the distinct Dag roots, Prepare().Header()/Cids() = header/sections written, Dump = Write, every callback call's offset/size/data = those of the section of its block and every section is reported to every callback, index codec = requested, index = sections; " +
 			"non-trivial = DAG with >= 3 nodes or a repeated link",
 		Bound: func(tier string) map[string]any {
 			maxN, fullN := c15Tiers(tier)
@@ -1305,6 +1390,8 @@ func init() {
 			"a traversal that loads some block more than once (link-visit-once off, lazy loads behind a LargeBytesNode) writes and counts it once",
 			"identity-CID blocks may or may not appear in the index written by the v2 traversal writers",
 			"depth-limited and first-field selectors on dag-pb count data-model steps (Links/index/Hash): limits 4 and 7 are used for one and two link levels",
+			"root module, several Dags with MaxTraversalLinks: one budget per Dag and one budget for the whole car are both accepted (two reference walks)",
+			"not asserted, recorded as beyond-statement outcomes: the exact sequence of store reads (repeats, order across Dags), the loads preceding a legal refusal, TraverseV1's count when it fails, a root shared by several Dags listed once or per Dag and the order of the roots, the number and order of the calls of a block callback",
 		},
 	})
 }
